@@ -60,7 +60,7 @@ class Driver:
                     continue
                 if out.startswith("= "):
                     v = sexp.dec(out[2:])
-                    if v == [sexp.ERR, sexp.ERR]:
+                    if v == [sexp.ERR, b"bad-args", sexp.ERR]:
                         raise RuntimeError(f"driver: bad arguments for {fn}: {line[:200]}")
                     return v
                 raise RuntimeError("driver error: " + out.strip() + " on " + line[:200])
